@@ -17,6 +17,13 @@ tree with `ast` and regenerates lean/FordModel/Generated/C07.lean:
                which branches are switched off while `blocklevel > 0` (block-local declarations are
                not filed in the enclosing unit)
 
+  boundBindingWrites / boundProtoWrites / boundLocalTables : `FortranBoundProcedure.correlate` - which
+               table the names of a binding statement are looked up in, under which conditions
+               (generic: the bindings of the type; specific: all_procs; deferred: nowhere)
+  nameTableMutations : every site of the two source files that binds or mutates a name table
+  inheritedGenericStmts / boundprocsBuild : `FortranType.correlate` - how an inherited generic binding
+               is copied (with or without a list of specifics of its own)
+
 A construct that cannot be found raises (tie broken, never a pass).
 """
 from __future__ import annotations
@@ -268,6 +275,207 @@ def code_variant():
     return alias + hol
 
 
+def _walk_stmts(stmts, conds, visit):
+    """visit(statement, [conditions it is under]) for every simple statement, recursively through
+    if / for / while / with / try"""
+    for st in stmts:
+        if isinstance(st, ast.If):
+            t = ast.unparse(st.test)
+            _walk_stmts(st.body, conds + [t], visit)
+            _walk_stmts(st.orelse, conds + [f"not ({t})"], visit)
+        elif isinstance(st, (ast.For, ast.While)):
+            _walk_stmts(st.body, conds, visit)
+            _walk_stmts(st.orelse, conds, visit)
+        elif isinstance(st, ast.With):
+            _walk_stmts(st.body, conds, visit)
+        elif isinstance(st, ast.Try):
+            _walk_stmts(st.body, conds, visit)
+            for h in st.handlers:
+                _walk_stmts(h.body, conds + ["except"], visit)
+            _walk_stmts(st.orelse, conds, visit)
+            _walk_stmts(st.finalbody, conds, visit)
+        elif isinstance(st, ast.FunctionDef):
+            continue
+        else:
+            visit(st, conds)
+
+
+def _cond(conds):
+    return " and ".join(conds) or "always"
+
+
+def extract_bound():
+    """`FortranBoundProcedure.correlate`: every write to `self.bindings[...]` and to `self.proto`
+    with the conditions it is under and the table it reads, and the local dicts it builds.  (A
+    deferred binding must be looked up nowhere, a generic one among the bindings of the type, a
+    specific one among the procedures of the scope.)"""
+    tree = ast.parse(_src())
+    fn = _method(tree, "FortranBoundProcedure", "correlate")
+    writes, protos, local, other = [], [], [], []
+
+    def visit(st, conds):
+        if isinstance(st, ast.Assign) and len(st.targets) == 1:
+            tg = st.targets[0]
+            if isinstance(tg, ast.Subscript) and _is_self_attr(tg.value, "bindings"):
+                writes.append((_cond(conds), ast.unparse(st.value)))
+                return
+            if _is_self_attr(tg, "proto"):
+                protos.append((_cond(conds), ast.unparse(st.value)))
+                return
+            if isinstance(tg, ast.Name) and isinstance(st.value, (ast.Dict, ast.DictComp, ast.Attribute, ast.IfExp, ast.Call)) \
+                    and any(isinstance(n, ast.Attribute) and n.attr in ("boundprocs", "all_procs", "all_absinterfaces", "all_types")
+                            for n in ast.walk(st.value)):
+                local.append((_cond(conds), tg.id, ast.unparse(st.value)))
+                return
+        if any(isinstance(n, ast.Attribute) and n.attr == "bindings" for n in ast.walk(st)) and \
+                any(isinstance(n, (ast.Store, ast.Del)) for n in ast.walk(st)):
+            # anything else that may write into `bindings` (slices, augmented assignment, del ...)
+            tgt = [t for t in getattr(st, "targets", [getattr(st, "target", None)]) if t is not None]
+            if any(isinstance(n, ast.Attribute) and n.attr == "bindings" for t in tgt for n in ast.walk(t)
+                   if not (isinstance(t, ast.Attribute) and t.attr == "binding")):
+                other.append(ast.unparse(st).splitlines()[0])
+
+    _walk_stmts(fn.body, [], visit)
+    if not writes or not protos:
+        raise LookupError("FortranBoundProcedure.correlate: writes to self.bindings[...] / self.proto not found")
+    return {"writes": writes, "protos": protos, "local": local, "other": other}
+
+
+_TABLES = ("all_procs", "all_types", "all_absinterfaces")
+_MUTATORS = ("update", "pop", "popitem", "clear", "setdefault", "__setitem__", "__delitem__")
+
+
+def extract_mutations():
+    """Every statement of ford/sourceform.py and ford/fortran_project.py that binds or mutates a
+    name table `all_procs` / `all_types` / `all_absinterfaces` of any object: (Class.method,
+    statement).  The model builds these tables in `_cleanup` and `correlate` of the code unit and
+    nowhere else; any other site that edits one (e.g. a clean-up that removes an entry) is outside
+    it and changes this list."""
+    out = []
+    for rel in ("sourceform.py", "fortran_project.py"):
+        tree = ast.parse((common.REPO / "ford" / rel).read_text())
+        for cls in tree.body:
+            if not isinstance(cls, ast.ClassDef):
+                continue
+            for m in cls.body:
+                if not isinstance(m, ast.FunctionDef):
+                    continue
+                for st in ast.walk(m):
+                    hit = False
+                    if isinstance(st, (ast.Assign, ast.AugAssign, ast.AnnAssign, ast.Delete)):
+                        tgts = st.targets if isinstance(st, (ast.Assign, ast.Delete)) else [st.target]
+                        for t in tgts:
+                            base = t.value if isinstance(t, ast.Subscript) else t
+                            if isinstance(base, ast.Attribute) and base.attr in _TABLES:
+                                hit = True
+                    elif isinstance(st, ast.Expr) and isinstance(st.value, ast.Call) and isinstance(st.value.func, ast.Attribute) \
+                            and st.value.func.attr in _MUTATORS and isinstance(st.value.func.value, ast.Attribute) \
+                            and st.value.func.value.attr in _TABLES:
+                        hit = True
+                    elif isinstance(st, ast.Call) and isinstance(st.func, ast.Attribute) and st.func.attr in _MUTATORS \
+                            and isinstance(st.func.value, ast.Attribute) and st.func.value.attr in _TABLES:
+                        hit = "call"
+                    if hit is True:
+                        out.append((f"{cls.name}.{m.name}", " ".join(ast.unparse(st).split())[:160]))
+                    elif hit == "call":
+                        txt = " ".join(ast.unparse(st).split())[:160]
+                        if not any(txt in o[1] for o in out if o[0] == f"{cls.name}.{m.name}"):
+                            out.append((f"{cls.name}.{m.name}", txt))
+    if not any(o[0] == "FortranCodeUnit.correlate" for o in out) or not any(o[0] == "FortranCodeUnit._cleanup" for o in out):
+        raise LookupError("construction of the name tables in FortranCodeUnit._cleanup / correlate not found")
+    return out
+
+
+def extract_inherit():
+    """`FortranType.correlate`: how a generic binding of the parent type reaches the extension - the
+    statements of the branches `bp.generic` of the loop over `self.extends.boundprocs` - and the
+    statement that builds `self.boundprocs` from them."""
+    tree = ast.parse(_src())
+    fn = _method(tree, "FortranType", "correlate")
+    branches = []
+    build = []
+
+    def visit(st, conds):
+        if any("bp.generic" in c and not c.startswith("not") for c in conds[-1:]):
+            branches.append(" ".join(ast.unparse(st).split()))
+        if isinstance(st, ast.Assign) and len(st.targets) == 1 and _is_self_attr(st.targets[0], "boundprocs"):
+            build.append(ast.unparse(st.value))
+
+    _walk_stmts(fn.body, [], visit)
+    if not branches or not build:
+        raise LookupError("FortranType.correlate: inheritance of generic bindings not found")
+    return {"branches": branches, "build": build}
+
+
+def generic_variant():
+    """'1' = the copy of a generic binding that an extension inherits keeps the parent's list of
+    specifics (shallow `copy.copy` only), '0' = it gets a list of its own; as read from the source."""
+    br = extract_inherit()["branches"]
+    copies = [b for b in br if "copy.copy(bp)" in b]
+    own = [b for b in br if b.replace(" ", "") in ("gen.bindings=list(bp.bindings)", "gen.bindings=bp.bindings.copy()",
+                                                   "gen.bindings=copy.copy(bp.bindings)", "gen.bindings=bp.bindings[:]")]
+    if not copies:
+        raise LookupError("FortranType.correlate: `copy.copy(bp)` of an inherited generic binding not found")
+    return "0" if len(own) == len(copies) else "1"
+
+
+def extract_sub():
+    """Submodules: the test with which `fortran_project.find_used_modules` picks the parent submodule
+    out of the project's list, and the statements of the FortranSubmodule branch of
+    `FortranCodeUnit.correlate` that bring the parent's tables in."""
+    tree = ast.parse((common.REPO / "ford" / "fortran_project.py").read_text())
+    fn = next((n for n in tree.body if isinstance(n, ast.FunctionDef) and n.name == "find_used_modules"), None)
+    if fn is None:
+        raise LookupError("fortran_project.find_used_modules not found")
+    tests = []
+    for n in ast.walk(fn):
+        if isinstance(n, ast.For) and isinstance(n.target, ast.Name) and n.target.id == "submod":
+            for st in n.body:
+                if isinstance(st, ast.If):
+                    tests.append(" ".join(ast.unparse(st.test).split()))
+    if len(tests) != 1:
+        raise LookupError("find_used_modules: the loop that looks the parent submodule up was not recognised")
+    tree = ast.parse(_src())
+    fn = _method(tree, "FortranCodeUnit", "correlate")
+    inherit = []
+
+    def visit(st, conds):
+        txt = " ".join(ast.unparse(st).split())
+        if any(isinstance(n, ast.Attribute) and n.attr in _TABLES for n in ast.walk(st)) and any(
+                w in txt for w in _SUB_HOSTS):
+            if isinstance(st, (ast.Assign, ast.AugAssign)) or (isinstance(st, ast.Expr) and isinstance(st.value, ast.Call)):
+                inherit.append((_cond(conds), txt))
+        elif isinstance(st, ast.Assign) and len(st.targets) == 1 and isinstance(st.targets[0], ast.Name) \
+                and st.targets[0].id == "submodule_host" and not (isinstance(st.value, ast.Constant) and st.value.value is None):
+            # (repaired shape) which unit the submodule's host is
+            inherit.append((_cond(conds), txt))
+
+    _walk_stmts(fn.body, [], visit)
+    if not inherit:
+        raise LookupError("FortranCodeUnit.correlate: inheritance of the parent's tables by a submodule not found")
+    return {"parent_test": tests[0], "inherit": inherit}
+
+
+_SUB_HOSTS = ("parent_submodule.", "ancestor_module.", "submodule_host.")
+
+
+def sub_variant():
+    """two characters: '1' = the parent's tables are `update`d into the submodule's (overwrite its
+    local declarations) / '0' = merged under them; '1' = the parent submodule is looked up by its
+    name alone / '0' = by ancestor module and name.  As read from the source."""
+    x = extract_sub()
+    stmts = [st for _, st in x["inherit"] if any(f"self.{t}" in st.split("=", 1)[0] or f"self.{t}.update" in st for t in _TABLES)]
+    if stmts and all(".update(self.parent_submodule." in st or ".update(self.ancestor_module." in st for st in stmts):
+        a = "1"
+    elif stmts and all(st.startswith("self.all_") and st.split("=", 1)[1].strip().startswith("{**")
+                       and st.split("=", 1)[1].rstrip("} ").split(",")[-1].strip().startswith("**self.all_") for st in stmts):
+        a = "0"
+    else:
+        raise LookupError("submodule branch of FortranCodeUnit.correlate: shape not recognised")
+    b = "0" if "ancestor" in x["parent_test"] else "1"
+    return a + b
+
+
 def _lstr(xs):
     return "[" + ", ".join('"%s"' % x for x in xs) + "]"
 
@@ -284,6 +492,10 @@ def generate():
     x = extract()
     u = extract_use()
     b = extract_blocks()
+    bp = extract_bound()
+    mut = extract_mutations()
+    inh = extract_inherit()
+    sub = extract_sub()
     lines = [
         "/- GENERATED by translate/c07.py from ford/sourceform.py - do not edit -/",
         "namespace Ford.C07Gen",
@@ -329,6 +541,51 @@ def generate():
         "",
         "/-- the body of the USE branch looks at `blocklevel` itself -/",
         f"def useBranchBlockAware : Bool := {'true' if b['use_aware'] else 'false'}",
+        "",
+        "/-- `FortranBoundProcedure.correlate`: every `self.bindings[i] = <value>`: (conditions, value) -/",
+        f"def boundBindingWrites : List (String × String) := {_ltup(bp['writes'])}",
+        "",
+        "/-- ... every `self.proto = <value>`: (conditions, value) -/",
+        f"def boundProtoWrites : List (String × String) := {_ltup(bp['protos'])}",
+        "",
+        "/-- ... the local dicts it builds from name tables: (conditions, name, value) -/",
+        f"def boundLocalTables : List (String × String × String) := {_ltup(bp['local'])}",
+        "",
+        "/-- ... any other statement that writes into a `bindings` list -/",
+        f"def boundOtherWrites : List String := [{', '.join(_q(v) for v in bp['other'])}]",
+        "",
+        "/-- every statement of ford/sourceform.py and ford/fortran_project.py that binds or mutates a name table",
+        "    `all_procs` / `all_types` / `all_absinterfaces`: (Class.method, statement) -/",
+        f"def nameTableMutations : List (String × String) := {_ltup(mut)}",
+        "",
+        "/-- ... the methods that contain one, in source order -/",
+        f"def nameTableSites : List String := {_lstr(list(dict.fromkeys(m for m, _ in mut)))}",
+        "",
+        "/-- ... those of the `_cleanup` methods (the local procedures of a unit) -/",
+        f"def cleanupTableWrites : List (String × String) := {_ltup([m for m in mut if m[0].endswith('._cleanup')])}",
+        "",
+        "/-- ... those of FortranCodeUnit.correlate that do not read the host's (`self.parent`) table:",
+        "    local declarations, USE imports (the submodule inheritance is `submoduleInherit`) -/",
+        "def correlateTableWrites : List String := ["
+        + ", ".join(_q(st) for m, st in mut if m == "FortranCodeUnit.correlate" and "self.parent," not in st and "self.parent." not in st
+                    and not any(w in st for w in _SUB_HOSTS)) + "]",
+        "",
+        "/-- `FortranType.correlate`: the statements of the `bp.generic` branches of the loop over the parent's bindings -/",
+        f"def inheritedGenericStmts : List String := [{', '.join(_q(v) for v in inh['branches'])}]",
+        "",
+        "/-- ... what `self.boundprocs` is rebuilt from -/",
+        f"def boundprocsBuild : List String := [{', '.join(_q(v) for v in inh['build'])}]",
+        "",
+        "/-- the test with which find_used_modules picks the parent submodule out of the project's list -/",
+        f"def submoduleParentTest : String := {_q(sub['parent_test'])}",
+        "",
+        "/-- the statements of the FortranSubmodule branch of FortranCodeUnit.correlate that touch a name table:",
+        "    (conditions inside the branch, statement) -/",
+        f"def submoduleInherit : List (String × String) := {_ltup(sub['inherit'])}",
+        "",
+        "/-- per reference owner class, the name tables its `correlate` mentions, in source order -/",
+        "def slotLookups : List (String × List String) := ["
+        + ", ".join(f"({_q(k)}, {_lstr(v)})" for k, v in x["lookups"].items()) + "]",
         "",
         "end Ford.C07Gen",
         "",
